@@ -116,7 +116,7 @@ def _(run):
 
 
 # ------------------------------------------------------------------ XsdList.raw_decode: item-wise decoding
-t = Target('simple_types.XsdList.raw_decode', ['C02'], F, 'XsdList.raw_decode',
+t = Target('simple_types.XsdList.raw_decode', ['C02', 'C05'], F, 'XsdList.raw_decode',
            note='one item-type decode per whitespace-separated chunk, in order, every chunk decoded with the caller\'s validation mode and context; the reported item is the '
                 'decoded value for kept datatypes (numbers, lists; decimals, dates, binaries only when requested), the chunk text itself for dates / durations and for QNames '
                 'when typed decoding is off, decimal_type(value) for decimals when a decimal type is given, str(value) otherwise; a nested list is an error',
